@@ -184,6 +184,15 @@ def run(F, R):
     # ---------------------------------------------------------------- R1 first seen
     R.rule("C18-R1", "the first-seen time and plan id are (re)written only when the stored plan id is absent or differs from plan.id(); on the equal path the stored time is returned; both writes are committed together")
     setplan = [k for k in bykey.get(K["plan"], []) if k["name"] == "set_string"]
+    if setplan:
+        # the attempt is recorded before the installer runs, so that a failed (or interrupted) attempt still leaves its first-seen time
+        fvp = setplan[0]["bv"].body.get("parent")
+        rec_calls = [n.idx for n in S.nodes if n.idx in S.live and n.term["k"] == "call" and fvp and n.term.get("callee_id") == fvp]
+        pi_ = sm.env(S, "Installer", "perform_install")
+        if R.floor("C18-R1", "calls recording the first-seen time / perform_install", min(len(rec_calls), len(pi_)), 1):
+            r0 = reach(S, [S.root.entry], cut_nodes=rec_calls)
+            R.check("C18-R1", "recorded-before-install", not (set(pi_) & r0), "perform_install is reached only after the plan id / first-seen time were recorded",
+                    "perform_install can run before the attempt's first-seen time is recorded: a failed attempt leaves no first-seen time behind")
     if R.floor("C18-R1", "writer of install_plan_id", len(setplan), 1):
         fv = setplan[0]["bv"]
         R.count("bodies")
